@@ -34,22 +34,23 @@ same = rc0 == 0 and rc1 == 0 and out0 == out1
 print(f"demo clean rc={rc0}; patched rc={rc1}; identical output: {out0 == out1} ({len(out0.splitlines())} lines)")
 if not same:
     print("NOT CONFIRMED as behaviour-preserving by its own demo"); sys.exit(1)
-if sh("git -C /repo status --porcelain --untracked-files=no").stdout.strip():
-    print("/repo not clean"); sys.exit(2)
 patch = os.path.join(wt, rd, "patch.diff")
-if sh(f"git -C /repo apply {patch}").returncode != 0:
-    print("patch does not apply to /repo"); sys.exit(2)
+# the checks are pointed at the worktree (LERAX_REPO) with the patch applied there: /repo itself is never touched, so several
+# archive runs (one per worktree) and in-memory experiments on /repo can go on at the same time
+if sh(f"git -C {wt} apply {rd}/patch.diff").returncode != 0:
+    print("patch does not apply in the worktree"); sys.exit(2)
 alarms = {}
+cenv = dict(os.environ, LERAX_REPO=wt)
 try:
     for i in range(1, 21):
         p = f"C{i:02d}"
-        r = sh(f"cd {VERIF} && ./check {p} --no-evidence")
+        r = subprocess.run(f"cd {VERIF} && ./check {p} --no-evidence", shell=True, capture_output=True, text=True, env=cenv)
         if r.returncode != 0:
             rules = sorted(set(re.findall(r"rule (C\d+\.(?:\d+|L)) \[(.+?)\] ([\w.-]+): ", r.stdout)))
             alarms[p] = {"exit": r.returncode, "rules": [f"{a} [{b}] {c}" for a, b, c in rules][:12],
                          "analysis_error": [l for l in r.stdout.splitlines() if l.startswith("ANALYSIS-ERROR")][:2]}
 finally:
-    sh("git -C /repo checkout -- .")
+    sh(f"git -C {wt} checkout -q -- src")
 dst = os.path.join(VERIF, "refactors", rid)
 os.makedirs(dst, exist_ok=True)
 for f in ("patch.diff", "demo.py", "notes.md"):
@@ -58,7 +59,7 @@ for f in ("patch.diff", "demo.py", "notes.md"):
 files = sorted(set(re.findall(r"^\+\+\+ b/(\S+)", open(patch).read(), re.M)))
 meta = {"id": rid, "property": prop, "files": files, "origin": "independent sub-agent asked for a behaviour-preserving change of the code behind the property",
         "confirmed": {"demo_output_identical_with_and_without_patch": True, "demo_lines": len(out0.splitlines())},
-        "checks_run": "all 20 quick checks against /repo with the patch applied (git apply), then git checkout -- .",
+        "checks_run": "all 20 quick checks against the sub-agent's worktree with the patch applied (LERAX_REPO=<worktree>), then git checkout -- src",
         "alarms_when_first_run": alarms, "silent_when_first_run": not alarms}
 json.dump(meta, open(os.path.join(dst, "meta.json"), "w"), indent=1)
 print(f"archived {rid}: silent={not alarms} alarms={[(k, v['exit'], v['rules'][:2], v['analysis_error'][:1]) for k, v in alarms.items()]}")
